@@ -534,7 +534,7 @@ def classify(ds, prog, problems):
             "after_failed_append": "append_fail" in before, "after_selection": any(b in ("slice", "pick") for b in before)}
 
 
-def minimise(ds, prog, mkroot, observers=None, inventory=None, budget=40):
+def minimise(ds, prog, mkroot, observers=None, inventory=None, budget=16):
     """greedy step removal keeping the first problem's kind (indices of later steps are handle numbers: only observers and
     trailing steps are removed, so that handle numbering is preserved)"""
     def fails(p):
@@ -568,7 +568,7 @@ def run_job(job):
         try:
             r = run_program(job["ds"], root, prog, None, job.get("inventory"))
             r.pop("trace", None)
-            if r["problems"]:
+            if r["problems"] and sum(1 for x in res if x["result"] and x["result"]["problems"]) < 1:
                 cnt = [0]
 
                 def mk():
